@@ -418,8 +418,27 @@ def classify_while(m, w, cls=None):
                   and ast.unparse(x.func.value) == pool
                   for s in g.body for x in ast.walk(s))
     bound = ast.unparse(t.comparators[0])
-    guard = pool is not None and capacity_guard_before(canonical_tests(m.node), w.lineno, pool,
-                                                       bound)
+    # the pool may be a sorted / listed / copied view of the collection whose size is guarded
+    pools = {pool} if pool is not None else set()
+    for _ in range(3):
+        for n_ in ast.walk(m.node):
+            if isinstance(n_, ast.Assign) and len(n_.targets) == 1 \
+                    and isinstance(n_.targets[0], ast.Name):
+                v_ = n_.value
+                src_ = None
+                if isinstance(v_, ast.Call) and isinstance(v_.func, ast.Name) \
+                        and v_.func.id in ("sorted", "list", "set", "tuple") and len(v_.args) == 1:
+                    src_ = ast.unparse(v_.args[0])
+                elif isinstance(v_, ast.Call) and isinstance(v_.func, ast.Attribute) \
+                        and v_.func.attr == "copy" and not v_.args:
+                    src_ = ast.unparse(v_.func.value)
+                elif isinstance(v_, (ast.Name, ast.Subscript, ast.Attribute)):
+                    src_ = ast.unparse(v_)
+                if src_ is not None and n_.targets[0].id in pools:
+                    pools.add(src_)
+                elif src_ in pools:
+                    pools.add(n_.targets[0].id)
+    guard = any(capacity_guard_before(canonical_tests(m.node), w.lineno, p_, bound) for p_ in pools)
     if not guard and pool is not None and cls is not None and pool in m.params \
             and bound in m.params:
         # the loop lives in a helper: the guard may sit in front of every call of the helper
